@@ -433,6 +433,66 @@ func c17Main(tier, build, repo, cffBin string) {
 		}
 	}
 	evaluations += aloneRuns + repeatCompared
+
+	// ---- (b3) modifier mode: files of one package that name the same imported package differently (or do
+	// not import it at all), whole package vs each file alone, in both file orders
+	modCompared := 0
+	{
+		mk := func(fam string, mod func(p *pg.Program)) *pg.Program {
+			f := pg.Shape("single")
+			f.Conc = "2"
+			p := flowProg(f, "MODDET:"+fam)
+			mod(p)
+			return p
+		}
+		base := []*pg.Program{
+			mk("time-plain", func(p *pg.Program) { p.Flow.Types[1] = pg.SpTime }),
+			mk("time-alias", func(p *pg.Program) { p.Flow.Types[1] = pg.SpTime; p.F.TimeImp = "alias" }),
+			mk("ext", func(p *pg.Program) { p.Flow.Types[0], p.Flow.Types[1] = pg.SpExt, pg.SpExt }),
+			mk("struct", func(p *pg.Program) {}),
+			mk("time-other", func(p *pg.Program) { p.F.TimeImp = "other" }),
+		}
+		for oi := 0; oi < 2; oi++ {
+			var ps []*pg.Program
+			for i := range base {
+				q := *base[i]
+				if oi == 1 {
+					q = *base[len(base)-1-i]
+				}
+				q.Flow = q.Flow.Clone()
+				q.ID = fmt.Sprintf("E%d%03d", oi, i)
+				ps = append(ps, &q)
+			}
+			g := &genSet{dir: filepath.Join(build, fmt.Sprintf("det-modifier-%d", oi)), mode: "modifier", progs: ps}
+			g.write(repo, mc.VerifDir())
+			g.runCff(cffBin, 1)
+			whole := map[string]string{}
+			for _, p := range ps {
+				if b, err := os.ReadFile(g.genFile[p.ID]); err == nil {
+					whole[p.ID] = string(b)
+					os.Remove(g.genFile[p.ID])
+				}
+			}
+			for _, p := range ps {
+				w, ok := whole[p.ID]
+				if !ok {
+					continue
+				}
+				_, se, code := run(g.dir, goEnv, cffBin, "-genmode=modifier", "-file="+filepath.Base(g.srcFile[p.ID]), "./"+g.pkgOf[p.ID])
+				b, err := os.ReadFile(g.genFile[p.ID])
+				os.Remove(g.genFile[p.ID])
+				modCompared++
+				if err != nil || string(b) != w {
+					msg := "modifier mode: processing the file alone (-file) produced different output than processing the whole package: " + firstTextDiff(w, string(b))
+					if err != nil {
+						msg += fmt.Sprintf(" (no output; exit %d: %s)", code, firstLines(se, 3))
+					}
+					report(progKey(p)+" mode=modifier alone order="+strconv.Itoa(oi), msg, p)
+				}
+			}
+		}
+	}
+	evaluations += modCompared
 	samples = append(samples, map[string]any{"kind": "map-iteration sites per key count (calls of vs.MapKeys in the generator, summed over programs and modes)", "histogram": siteHist})
 	wall := time.Since(rep.Start).Seconds()
 	ev := &mc.Evidence{PropertyID: "C17", Tier: tier, Seed: mc.Seed(), Level: "model_checking", WallS: wall, Violations: rep.Violations,
@@ -452,6 +512,7 @@ func c17Main(tier, build, repo, cffBin string) {
 			"file_set_outputs_compared":           fsCompared,
 			"relocated_tree_outputs_compared":     relocCompared,
 			"alone_vs_package_runs":               aloneRuns,
+			"modifier_alone_vs_package_runs":      modCompared,
 			"repeat_comparisons":                  repeatCompared,
 			"known_findings_hit":                  rep.KnownHits,
 			"rule":                                "(a) the tool rebuilt with every generator map range under explorer control: for each program and mode a default run records the sequence of map iterations (key counts), then every single deviation (thorough: pairs at sites with <=3 keys) from sorted order is executed - all n! orders for n<=4, reversal/rotations/adjacent transpositions above - and the output must be byte-identical; distinct_nontrivial = map-iteration sites with >=2 keys; (b) every -file subset x explicit/default output of a 5-file package and every file of the large packages alone vs whole package; (c) two fresh processes per package and mode, token scan",
